@@ -287,8 +287,15 @@ pub fn c17(ctx: &mut Ctx) -> R {
         round += 1;
         ctx.input();
         // position array
-        let l = gen::bh_len(&mut ctx.rng, 64);
-        let s = gen::bh_raw(&mut ctx.rng, l);
+        // long and run-rich, then tiny / edge-shaped, then free: the object is reused throughout
+        let s = match round % 3 {
+            0 => gen::bh_rich(&mut ctx.rng, 64),
+            1 => gen::bh_edge(&mut ctx.rng, 64),
+            _ => {
+                let l = gen::bh_len(&mut ctx.rng, 64);
+                gen::bh_raw(&mut ctx.rng, l)
+            }
+        };
         let mut others = vec![s.clone(), gen::mutate_bh(&mut ctx.rng, &s, 64)];
         let mut t = s.clone();
         t.push(0);
@@ -306,7 +313,11 @@ pub fn c17(ctx: &mut Ctx) -> R {
         // comparison target (short and long hashes alternate on the same object)
         let short = round % 2 == 0;
         let cap2 = if short { 32 } else { 64 };
-        let m = gen::model_norm(&mut ctx.rng, cap2);
+        let m = match round % 6 {
+            0 | 1 => gen::model_rich(&mut ctx.rng, cap2).normalized(),
+            2 | 3 => gen::model_second(&mut ctx.rng, cap2).normalized(),
+            _ => gen::model_norm(&mut ctx.rng, cap2),
+        };
         let mut os = vec![m.clone()];
         for _ in 0..3 {
             os.push(gen::related_norm(&mut ctx.rng, &m, cap2));
